@@ -122,6 +122,8 @@ struct Task {
     panic_msg: Option<String>,
     blocking_calls: u32,
     blocked_bt: Option<String>,
+    no_preempt: bool,
+    blocks: u32,
 }
 
 pub(crate) struct Exec {
@@ -287,6 +289,8 @@ pub(crate) fn spawn_task(name: String, f: Box<dyn FnOnce() + 'static>) -> TaskId
             panic_msg: None,
             blocking_calls: 0,
             blocked_bt: None,
+            no_preempt: false,
+            blocks: 0,
         });
         e.local_steps.push(0);
     });
@@ -411,7 +415,8 @@ pub fn run(cfg: Config, chooser: Box<dyn Chooser>, root: Box<dyn FnOnce() + 'sta
             unfinished += 1;
         }
         if let Some(mut c) = t.coro.take() {
-            if c.started() && !c.done() {
+            if !c.done() {
+                // abandons the stack contents (and the initial closure of a never-started task) without running destructors
                 unsafe { c.force_reset() };
             }
             give_stack(c.into_stack());
@@ -449,8 +454,26 @@ fn switch_out() {
 #[inline]
 pub fn sched_point() {
     if in_task() {
-        switch_out();
+        let skip = with_exec(|e| e.tasks[e.current].no_preempt);
+        if !skip {
+            switch_out();
+        }
     }
+}
+
+/// Runs `f` without pre-emption: scheduling points of the current task are skipped (it can still block).
+/// Harness use: makes "observe, call, observe" sequences atomic.
+pub fn atomic<R>(f: impl FnOnce() -> R) -> R {
+    let prev = with_exec(|e| {
+        let cur = e.current;
+        std::mem::replace(&mut e.tasks[cur].no_preempt, true)
+    });
+    let r = f();
+    with_exec(|e| {
+        let cur = e.current;
+        e.tasks[cur].no_preempt = prev;
+    });
+    r
 }
 
 /// Blocks the current task until something makes it runnable again.
@@ -461,6 +484,7 @@ pub(crate) fn block(kind: BlockKind, key: usize) {
         let t = &mut e.tasks[cur];
         t.state = TaskState::Blocked(kind, key);
         t.blocked_bt = bt;
+        t.blocks += 1;
     });
     switch_out();
     with_exec(|e| {
@@ -505,7 +529,13 @@ pub(crate) fn wake_one(kind: BlockKind, key: usize) -> bool {
         if waiters.is_empty() {
             return false;
         }
-        let i = if waiters.len() == 1 { 0 } else { e.chooser.pick(waiters.len()).min(waiters.len() - 1) };
+        let i = if waiters.len() == 1 {
+            0
+        } else {
+            let i = e.chooser.pick(waiters.len()).min(waiters.len() - 1);
+            e.trace.push(0x80 | i as u8);
+            i
+        };
         e.tasks[waiters[i]].state = TaskState::Runnable;
         true
     })
@@ -610,8 +640,19 @@ pub fn abort(reason: String) -> ! {
     }
 }
 
+/// Makes a parked task runnable (or leaves it a token) without a scheduling point. Harness use.
+pub fn unpark_nosched(tid: TaskId) {
+    let ep = epoch();
+    unpark(tid, ep);
+}
+
 pub fn steps() -> u64 {
     with_exec(|e| e.steps)
+}
+
+/// Number of times the task actually blocked (on anything, including mutexes)
+pub fn block_count(tid: TaskId) -> u32 {
+    with_exec(|e| e.tasks[tid].blocks)
 }
 
 pub fn blocking_calls(tid: TaskId) -> u32 {
